@@ -138,3 +138,60 @@ P.fn(FX + 'IndexUtils.splitColumns', name='splitColumns/4', params=PARAMS, retur
 
 P.unverified_surrounding('index.invoke (entry parser), IndexEntry.__lt__, IndexUtils.digest (prefix merge), groups: bounded native checks only')
 P.assume('collator / unidecode are library oracles (A4)')
+
+# ---------------------------------------------------------------------------------------------- groups: letter groups (first loop; the second
+# loop hands every group to splitColumns, proved above)
+P.cls('Item', fields=dict(sortkey='str'))
+P.cls('IndexList', elem='Item', fields={})
+P.cls('IndexGroup', elem='Item', fields=dict(title='str?', id='str'))
+P.uninterp('IPOS', ['Item'], 'int')          # ghost labelling of the children by their index
+P.uninterp('UNI', ['str'], 'str')            # unidecode
+LETTERS_ = 'abcdefghijklmnopqrstuvwxyzABCDEFGHIJKLMNOPQRSTUVWXYZ'
+P.fn('unidecode_', params=dict(s='str'), returns='str', ensures=['result == UNI(s)'], trusted=True, modifies=[], notes='unidecode (A4)')
+P.fn('stringletters_', params={}, returns='str', ensures=['result == "%s"' % LETTERS_], trusted=True, modifies=[], notes='encoding.stringletters(): the ASCII letters')
+P.fn('new_group', params={}, returns='IndexGroup', trusted=True, allocates=True, modifies=[], ensures=['fresh(result)', 'len(result) == 0'],
+     notes='self.IndexGroup(): a new empty group')
+
+
+@P.spec
+def HEADING(k: 'str') -> 'str':
+    """the heading an entry with sort key k is filed under: its (transliterated, upper-cased) initial when that is a letter, a heading of
+    its own for the underscore, Symbols for everything else and for the empty key"""
+    if len(k) == 0:
+        return "Symbols"
+    if str_upper(UNI(k[0:1])) != "" and str_upper(UNI(k[0:1])) in "abcdefghijklmnopqrstuvwxyzABCDEFGHIJKLMNOPQRSTUVWXYZ":
+        return str_upper(UNI(k[0:1]))
+    if str_upper(UNI(k[0:1])) == "_":
+        return "_ (Underscore)"
+    return "Symbols"
+
+
+NB = 'len(batches)'
+def groups_facts(upto):
+    return [
+        'all(len(batches[g]) > 0 for g in range(%s))' % NB,
+        'all(all(0 <= IPOS(batches[g][t]) and IPOS(batches[g][t]) < %s and self[IPOS(batches[g][t])] is batches[g][t] for t in range(len(batches[g]))) for g in range(%s))' % (upto, NB),
+        # members of a group are consecutive children, consecutive groups continue the sequence, the first starts with the first child
+        'all(all(IPOS(batches[g][t + 1]) == IPOS(batches[g][t]) + 1 for t in range(len(batches[g]) - 1)) for g in range(%s))' % NB,
+        'all(IPOS(batches[g + 1][0]) == IPOS(batches[g][len(batches[g]) - 1]) + 1 for g in range(%s - 1))' % NB,
+        'implies(%s > 0, IPOS(batches[0][0]) == 0)' % NB,
+        'implies(%s > 0, %s > 0 and IPOS(batches[%s - 1][len(batches[%s - 1]) - 1]) == %s - 1)' % (upto, NB, NB, NB, upto),
+        'implies(%s == 0, %s == 0)' % (upto, NB),
+        # every member is filed under its group's heading; neighbouring groups have different headings
+        'all(not isnone(batches[g].title) and all(HEADING(batches[g][t].sortkey) == unopt(batches[g].title) for t in range(len(batches[g]))) for g in range(%s))' % NB,
+        'all(unopt(batches[g].title) != unopt(batches[g + 1].title) for g in range(%s - 1))' % NB]
+
+
+P.fn(FX + 'IndexUtils.groups', name='IndexUtils.groups/partition', params=dict(self='IndexList'), returns='list[IndexGroup]',
+     requires=['all(not isnone(self[i]) and IPOS(self[i]) == i for i in range(len(self)))'],
+     stop_after_loop=0, end_ensures=groups_facts('len(self)'),
+     allocates=True, skip_frame=True, heap_consts=True, solver_ms=120000, locals={'[]': 'list[IndexGroup]', 'batches': 'list[IndexGroup]'},
+     calls={'unidecode': 'unidecode_', 'encoding.stringletters': 'stringletters_', 'self.IndexGroup': 'new_group'},
+     loops={0: Loop(index='j', inv=groups_facts('j') + [
+         'j <= len(self)', 'fresh(batches)', 'all(fresh(batches[g]) and batches[g] is not batches for g in range(%s))' % NB,
+         'all(batches[a] is not batches[b] for a in range(%s) for b in range(a + 1, %s))' % (NB, NB),
+         'implies(%s > 0, current == unopt(batches[%s - 1].title))' % (NB, NB), 'implies(%s == 0, current == "")' % NB,
+         'all(unopt(batches[g].title) != "" for g in range(%s))' % NB],
+         at_end=['len(batches[%s - 1]) >= 1' % NB, 'HEADING(self[j - 1].sortkey) == current', 'current == unopt(batches[%s - 1].title)' % NB,
+                 'batches[%s - 1][len(batches[%s - 1]) - 1] is self[j - 1]' % (NB, NB)],
+         modifies=[Mod('list:IndexGroup', 'fresh(r)'), Mod('list:Item', 'fresh(r)'), Mod('title', 'fresh(r)'), Mod('id', 'fresh(r)')])})
